@@ -830,8 +830,35 @@ struct EnvGuard {
     done: bool,
 }
 
+thread_local! {
+    /// Sequential harness only: "is the pool's slots lock held right now?"
+    /// (the snapshot accessor uses try_lock).  With one controller and no other
+    /// actor a held lock can only be held by the call chain that is running.
+    static LOCK_PROBE: RefCell<Option<Box<dyn Fn() -> bool>>> = const { RefCell::new(None) };
+}
+
+pub fn set_lock_probe(p: Option<Box<dyn Fn() -> bool>>) {
+    LOCK_PROBE.with(|c| *c.borrow_mut() = p);
+}
+
+/// A manager or hook that calls back into the pool (`status()`, a gauge, a
+/// registry) deadlocks `get()` if it is invoked while `get()` holds the slots
+/// lock: C02 "get() itself never ... deadlocks".  (`retain()` documents that
+/// its predicate and the detach of rejected objects run under the lock.)
+fn check_not_under_pool_lock(what: &str) {
+    let held = LOCK_PROBE.with(|c| c.borrow().as_ref().map(|f| f()).unwrap_or(false));
+    if held {
+        let _ = try_w(|w| {
+            if !w.in_retain && w.cur_get(w.seq_actor.unwrap_or(usize::MAX)).is_some() {
+                w.violate(&["C02"], "manager-called-under-pool-lock", format!("{} was invoked by get() while the pool's slots lock was held: a manager or hook that calls back into the pool would deadlock", what));
+            }
+        });
+    }
+}
+
 impl EnvGuard {
     fn enter(site: Site, obj: Option<usize>, m: Option<Metrics>) -> EnvGuard {
+        check_not_under_pool_lock(&format!("{:?}", site));
         let who = who();
         w(|w| w.env_enter(who, site, obj, m));
         EnvGuard { who, site, obj, done: false }
@@ -973,6 +1000,7 @@ impl Manager for Mgr {
     fn detach(&self, obj: &mut Obj) {
         let id = obj.id;
         trace!("  detach object {}", id);
+        check_not_under_pool_lock("Manager::detach");
         let _ = try_w(|w| {
             w.objs[id].detach += 1;
             if w.objs[id].detach > 1 {
